@@ -32,7 +32,10 @@ func init() {
 
 const prelude = `var x=1, y=2.5, o={p:1,f:function(){return 1},get g(){return 2},set g(v){}}, a=[1,2,3], s="str", u, n=null, b=10n, sym=Symbol("q");
 function f(){return 1} function F(){this.p=1} function* gen(){yield 1; yield 2} async function af(){return 1}
-class K{ #p=1; static s=1; m(){return this.#p} static has(o){return #p in o} } var k=new K();`
+var K = class K{ #p=1; static s=1; m(){return this.#p} static has(o){return #p in o} }; var k=new K();`
+
+// The prelude declares no global let/const/class on purpose: the global stash stays empty, so a reference compiled
+// one scope level too deep indexes an empty stash and fails loudly instead of silently reading a neighbour.
 
 var bugMarkers = []string{"Compiler bug", "BUG", "Runtime bug", "Internal bug", "unreachable", "Illegal stack var index", "Variadic marker", "runtime error", "interface conversion", "nil pointer", "index out of range", "slice bounds"}
 
